@@ -15,7 +15,7 @@
    column. *)
 From Coq Require Import List NArith ZArith Bool.
 Import ListNotations.
-From SAV.orm Require Import Flush FlushProofs.
+From SAV.orm Require Import Flush FlushProofs FlushSync FlushSyncProofs.
 
 (* the database after a flush at the end of ANY operation history, over ANY set of relationships, is the
    rows of the object graph: row by row, and the secondary rows are exactly the many-to-many members *)
@@ -44,6 +44,29 @@ Print Assumptions c30_flush_reestablishes.
 Theorem c30_reload_equiv : forall s, NoDup (map o_id (objs s)) -> load (rows_of_graph s) = graph_of s.
 Proof. exact reload_equiv_main. Qed.
 Print Assumptions c30_reload_equiv.
+
+(* ------------------------------------------------------------------ primary key changes, composite keys *)
+(* orm/FlushSync.v: parents with a natural key of ANY number of columns, passive_updates=False; operations:
+   new parent / child, re-parenting, assignment to ONE key column, flush.  After a flush at the end of any
+   history the parent rows carry the current keys and every child row carries, in every column, the current
+   key of its parent (or NULL) *)
+Theorem c30_key_change_writes_graph : forall n h, let s := nflush (napply n nempty h) in
+  prow s = spec_prow s /\ crow s = spec_crow s.
+Proof. exact key_change_writes_graph_main. Qed.
+Print Assumptions c30_key_change_writes_graph.
+
+(* the rule it rests on (sync._source_modified: some synchronize pair has a deleted history): if it answers
+   "not modified" the whole key is unchanged, whatever the number of pairs ... *)
+Theorem c30_source_modified_complete : forall old new, length old = length new ->
+  source_modified old new = false -> old = new.
+Proof. exact source_modified_false. Qed.
+Print Assumptions c30_source_modified_complete.
+
+(* ... which a rule that looks at the first pair only does not give *)
+Theorem c30_first_pair_only_insufficient :
+  exists old new, length old = length new /\ first_pair_only old new = false /\ old <> new.
+Proof. exact first_pair_only_insufficient. Qed.
+Print Assumptions c30_first_pair_only_insufficient.
 
 (* non-vacuity: a child re-parented after a flush, its old parent deleted, a scalar changed *)
 Local Open Scope N_scope.
